@@ -29,11 +29,15 @@ use cascette_crypto::ContentKey;
 use std::{
     collections::HashMap,
     sync::{
-        Arc, RwLock,
+        Arc,
         atomic::{AtomicU64, Ordering},
     },
     time::{Duration, Instant},
 };
+#[cfg(feature = "verif-hooks")]
+use crate::verif_hooks::sync::RwLock;
+#[cfg(not(feature = "verif-hooks"))]
+use std::sync::RwLock;
 
 /// Entry tracking information for promotion decisions
 #[derive(Debug, Clone)]
